@@ -63,6 +63,43 @@ Section Share.
   Lemma KT_here : forall cont ty G st S, KT cont ty G st S -> ct G CCns ty cont = None.
   Proof. intros cont ty G st S H. apply H. apply agree_refl. Qed.
 
+  (* ---------- the capture check of the repaired translation (fix <commitcap>) never fires on a guarded term:
+     binders that are neither in S nor generated do not occur (by name) in a continuation with the invariant ---------- *)
+  Lemma clookup_filter : forall f G x, (forall b, cbvar b = x -> f b = true) -> clookup (filter f G) x = clookup G x.
+  Proof.
+    intros f G x Hf. induction G as [|a r IH]; [reflexivity|]. cbn [filter clookup].
+    destruct (cident_eqb (cbvar a) x) eqn:E.
+    - apply ceq_id in E. rewrite (Hf a E). cbn [clookup]. apply ceq_id in E. rewrite E. reflexivity.
+    - destruct (f a); [cbn [clookup]; rewrite E|]; exact IH.
+  Qed.
+  Lemma KT_captures : forall cont ty G st S binders,
+    KT cont ty G st S -> (forall v, In v binders -> ~ In v S /\ ~ gen st v) -> captures binders cont = false.
+  Proof.
+    intros cont ty G st S binders HK Hb.
+    set (f := fun b : cbinding => negb (existsb (String.eqb (fst (cbvar b))) binders)).
+    assert (Hag : agree st S (filter f G) G).
+    { intros y Hy. apply clookup_filter. intros b Eb. unfold f. rewrite Eb. simpl. apply negb_true_iff.
+      destruct (existsb (String.eqb y) binders) eqn:E; [|reflexivity]. apply existsb_exists in E. destruct E as [v [Hv Ev]].
+      apply String.eqb_eq in Ev. subst v. destruct (Hb y Hv) as [H1 H2]. destruct Hy; contradiction. }
+    pose proof (HK _ Hag) as Ht. pose proof (fv_lookup_term data codata defs cont _ _ _ Ht) as Hl.
+    unfold captures.
+    match goal with |- ?e = false => destruct e eqn:E; [|reflexivity] end. exfalso.
+    apply existsb_exists in E. destruct E as [v [Hv E]]. apply existsb_exists in E. destruct E as [bb [Hbb E]].
+    apply String.eqb_eq in E.
+    pose proof (Hl bb Hbb) as Hlk. apply clookup_In in Hlk. apply filter_In in Hlk. destruct Hlk as [_ Hf]. unfold f in Hf.
+    apply negb_true_iff in Hf.
+    assert (Ht' : existsb (String.eqb (fst (cbvar bb))) binders = true).
+    { apply existsb_exists. exists v. split; [exact Hv|]. rewrite E. apply String.eqb_refl. }
+    rewrite Ht' in Hf. discriminate Hf.
+  Qed.
+  Lemma guard_capture_KT : forall binders (w : cterm -> M cstmt) lty cont st s st' ty G S,
+    guard_capture false binders w lty cont st = Ok (s, st') -> KT cont ty G st S ->
+    (forall v, In v binders -> ~ In v S /\ ~ gen st v) -> w cont st = Ok (s, st').
+  Proof.
+    intros binders w lty cont st s st' ty G S H HK Hb. unfold guard_capture in H.
+    rewrite (KT_captures cont ty G st S binders HK Hb) in H. exact H.
+  Qed.
+
   (* a binder whose name is neither free in the continuation nor generated does not disturb it *)
   Lemma agree_cons : forall st S b0 v G, cbvar b0 = new_id v -> ~ In v S -> ~ gen st v -> agree st S (b0 :: G) G.
   Proof.
